@@ -238,6 +238,11 @@ def run_load(name, fmt, api, data, consume=("exhaust", 0), knobs=None, budget=No
         except BaseException as exc:  # noqa: BLE001 - judged by the oracle
             rec["exc"] = exc
     gc.collect()
+    if rec["exc"] is not None:
+        try:
+            str(rec["exc"])
+        except Exception as exc2:  # noqa: BLE001 - an error whose own message cannot be produced
+            rec["str_fails"] = f"{type(exc2).__name__}: {exc2}"
     rec["steps"] = st.steps
     rec["warnings"] = [type(x.message).__name__ for x in wlist]
     rec["warning_msgs"] = [f"{type(x.message).__name__}:{str(x.message).rsplit(' (', 1)[0]}" for x in wlist]
@@ -344,6 +349,11 @@ def judge(trace, rec):
     name, fmt, api = trace["name"], trace.get("fmt"), trace["api"]
     if isinstance(exc, (StepBudgetExceeded, seams.SimLiveness)):
         out.append(_v("liveness", f"no termination within the step budget: {exc}", trace))
+        return out
+    if rec.get("str_fails"):
+        # the error exists but cannot tell what it is about: printing it (as the interpreter does for an uncaught
+        # exception) raises in turn
+        out.append(_v("error_message_unprintable", f"{et} was raised but str() of it raises {rec['str_fails']}", trace, et))
         return out
     sel = selectable(name, api, fmt)
     if exc is not None:
@@ -589,6 +599,11 @@ def gen_trace(rng, tier):
         fmt = rng.choice(sorted(FORMAT_MODULES) + ["nosuchformat"])
     elif r < 0.30 and base_fmt is None:
         fmt = natural_fmt(base_name)  # explicit selection of the right format
+    elif r < 0.36:
+        # a file name with characters that mean something to str.format, % formatting, shells and wildcards
+        odd = rng.choice(["b{r}ace ", "100%s", "{0}", "a[1]*", "q'\"x "]) + base_name
+        if natural_fmt(odd) == natural_fmt(base_name):
+            name = odd
     trace = {"source": src, "faults": fl, "name": name, "fmt": fmt, "api": api, "base_name": base_name,
              "base_fmt": base_fmt,
              "consume": [rng.choice(["exhaust", "list", "close", "drop"]), rng.randint(0, 3)],
